@@ -112,7 +112,7 @@ package metrics
 
 // "at most one metric per peer - the most recently received - and only if it is valid, unexpired"
 //@ func (mtrs *Store) LatestValid
-//@   property C09 C18
+//@   property C09 C18 C10 C03
 //@   opts own
 //@   requires storeInv(mtrs)
 //@   ensures [latest-of-some-peer] forall i int :: 0 <= i && i < len(res) ==> res[i] != nil && haskey(mtrs.byName, name) && haskey(mtrs.byName[name], res[i].Peer) && res[i] == winLatest[mtrs.byName[name][res[i].Peer]]
